@@ -27,6 +27,13 @@ CHECKS['C11'] = dict(
          'magnitudes, array quantities, plain lists/arrays and chains whose exponents cancel only up to round-off. Exploration: exhaustive over class pairs, sampled over magnitudes.',
     note='Trusted: Python/numpy float arithmetic. Operands built from SI-coherent unit strings so the SI magnitude is exactly the generated number (asserted at start-up).',
     ref='DESIGN.md C11')
+CHECKS['C05'] = dict(
+    technique='Hypothesis cell-stratified Cp tables; invariants at the data + independent Gauss-Legendre quadrature of the object\'s own Cp/R; three construction paths and all supply orders must agree',
+    text='Tables of 1-16 points are drawn cell-first (N class x T_ref placement x supply order), built directly, via ThermochemGroup(dict) and from YAML, and checked at every knot, range end, '
+         'T_ref and across every break point: knots reproduced, H/S at T_ref, d(T*H/RT) and d(S/R) against composite 24-point Gauss-Legendre quadrature, constant extrapolation, G=H-S, scalar vs array '
+         'evaluation; plus every shipped group with Cp data. Exploration with measured tolerances (S: 1e-4 of the path integral of |Cp/T|, because the code uses quad at default tolerance).',
+    note='Trusted: numpy Gauss-Legendre nodes; scipy spline evaluation (the integrand is the object\'s own Cp/R, its shape between knots is not asserted).',
+    ref='DESIGN.md C05')
 NOT_YET = {}
 
 def main():
